@@ -39,16 +39,23 @@ LogDetOK(j) == LET ld == C.logdet[j] IN
                IF ~DetSafe(C.H[j]) \/ ~DetSafe(C.Hinv[j]) THEN FALSE ELSE
                IF ld >= 0 THEN FAbs(FMul(ExpNeg(ld), Det(C.H[j])) - S) <= S \div 64
                ELSE FAbs(FMul(ExpNeg(-ld), Det(C.Hinv[j])) - S) <= S \div 64
+\* descriptor and grid weights of the DOCUMENTED mixture come from the inputs, not from the estimator: the caller's integer
+\* weights C.wi normalised to total one, and their sums over the Voronoi cells (labels are checked by TraceKDE)
+RECURSIVE WSumUpTo(_, _)
+WSumUpTo(k, j) == IF k = 0 THEN 0 ELSE (IF j = 0 \/ C.labels[k] = j THEN C.wi[k] ELSE 0) + WSumUpTo(k - 1, j)
+WTot == WSumUpTo(ND, 0)
+WFx(d) == (C.wi[d] * S) \div WTot
+GwFx(j) == (WSumUpTo(ND, j) * S) \div WTot
 \* nlw = -ln w >= 0
 LnOK(wv, nlw) == nlw >= 0 /\ FAbs(ExpNeg(nlw) - wv) * 64 <= wv + 64
-WitnessesOK == /\ \A j \in 1..NG : InvOK(j) /\ LogDetOK(j) /\ (C.gw[j] < 16 \/ LnOK(C.gw[j], C.nlgw[j]))
-               /\ \A d \in 1..ND : LnOK(C.w[d], C.nlw[d])
+WitnessesOK == /\ \A j \in 1..NG : InvOK(j) /\ LogDetOK(j) /\ (GwFx(j) < 16 \/ LnOK(GwFx(j), C.nlgw[j]))
+               /\ \A d \in 1..ND : LnOK(WFx(d), C.nlw[d])
 NK(j) == Dm * LN2PI + C.logdet[j]
 \* ---- the documented mixture for query i: set of <<tag, exponent deficit u = score - term>> ----
 NearCut(m) == FAbs(m - C.kdecut) <= 64 + C.kdecut \div 200
 Terms(i) == LET x == C.Q[i]  sc == C.score[i] IN
    UNION { LET m == QuadSafe(Diff(x, C.G[j]), C.Hinv[j]) IN
-           IF m > C.kdecut THEN (IF C.gw[j] < 16 \/ m = HUGE THEN {} ELSE { <<j, 0, sc + C.nlgw[j] + (NK(j) + m) \div 2>> })
+           IF m > C.kdecut THEN (IF GwFx(j) < 16 \/ m = HUGE THEN {} ELSE { <<j, 0, sc + C.nlgw[j] + (NK(j) + m) \div 2>> })
            ELSE { LET q == QuadSafe(Diff(C.D[d], x), C.Hinv[j]) IN <<j, d, IF q = HUGE THEN HUGE ELSE sc + C.nlw[d] + (NK(j) + q) \div 2>>
                   : d \in {d \in 1..ND : C.labels[d] = j /\ C.D[d] # x} }
          : j \in 1..NG }
